@@ -26,7 +26,7 @@
        biased: a concrete reachable history whose exhaustive coin sum is 32 instead of 34
        (C08_req_unset_coin_refuted); the same history is exactly unbiased once the constructor draws the coin. *)
 From Coq Require Import ZArith List Bool Lia Permutation Sorted.
-From DS Require Import RunnerLib SortedView ReqDefs ReqProofs ReqView ReqUnbiased ReqFlips Regression_req.
+From DS Require Import RunnerLib SortedView ReqDefs ReqProofs ReqView ReqUnbiased ReqFlips ReqExact Regression_req.
 Import ListNotations.
 Local Open Scope Z_scope.
 
@@ -104,6 +104,23 @@ Proof.
     + exact (r_inv ob lob (reach_Rel ic ob lob Rob)).
 Qed.
 
+(* The published error (get_rank_lower_bound / get_rank_upper_bound / get_RSE, is_exact_rank) is modelled bit-exactly in
+   binary64 (ReqDefs.rank_lb / rank_ub / is_exact_rank) and compared with the code on every run.  The claim behind
+   is_exact_rank - the nsec * section_size items at the accurate end of level 0 (3k at the start, never fewer) are never
+   compacted - for every history, every coin outcome, both modes; m = 3 * the smallest k of all sketches merged in
+   (reachm).  LRA: an estimated rank numerator BELOW m is the true rank; HRA: likewise when the estimated number of
+   items above the query point, n - numerator, is below m.  STRICT: at numerator = m exactly the code also declares the
+   rank exact, which is wrong (known finding req_exact_band_wrong_at_its_edge), and after a merge with a smaller-k
+   operand the code still uses the receiver's k (known finding req_exact_band_wrong_after_unequal_k_merge). *)
+Theorem C08_req_exact_band : forall ic m s log, reachm ic m s log -> forall x incl,
+  (hra s = false -> qrank s x incl < m -> qrank s x incl = cnt (below x incl) log) /\
+  (hra s = true -> rn s - qrank s x incl < m -> qrank s x incl = cnt (below x incl) log).
+Proof. exact exact_band_rank. Qed.
+
+(* every reachable state of sketches built with the same k is covered with m = 3 * k (the band of is_exact_rank) *)
+Theorem C08_req_exact_band_covers_reachable : forall ic m s log, reachm ic m s log -> reach ic s log /\ m <= nsec (getc s 0%nat) * ssz (getc s 0%nat).
+Proof. intros ic m s log R. split; [now apply (reachm_reach ic m)|]. exact (pr_m m s log (reachm_Prot ic m s log R)). Qed.
+
 (* the defect repaired by fixes/08_req_unset_coin.patch, as a theorem about the model of the old code (ic = false) *)
 Theorem C08_req_unset_coin_biased_refuted :
   (forall s, leaf (hist false) s -> reach false s hist_log) /\
@@ -121,4 +138,6 @@ Print Assumptions C08_req_update_merge_exact_partial.
 Print Assumptions C08_req_negated_pair_unbiased_partial.
 Print Assumptions C08_req_flip_count_independent.
 Print Assumptions C08_req_lockstep.
+Print Assumptions C08_req_exact_band.
+Print Assumptions C08_req_exact_band_covers_reachable.
 Print Assumptions C08_req_unset_coin_biased_refuted.
